@@ -10,8 +10,8 @@
 #include <sys/wait.h>
 #include <unistd.h>
 
-enum { X_INIT = 1000, X_WINDOW, X_CHURN, X_MZP, X_PNG_WRITE, X_PNG_READ, X_JCF_READ, X_FROM_STR, X_DJB_BIG, X_NEXTRA };
-static const char *XN[] = {"mzd_init", "mzd_init_window", "init_free_churn", "mzp_init_copy", "mzd_to_png", "mzd_from_png", "mzd_from_jcf", "mzd_from_str", "djb_compile_big"};
+enum { X_INIT = 1000, X_WINDOW, X_CHURN, X_MZP, X_PNG_WRITE, X_PNG_READ, X_JCF_READ, X_FROM_STR, X_DJB_BIG, X_INIT_BIG, X_NEXTRA };
+static const char *XN[] = {"mzd_init", "mzd_init_window", "init_free_churn", "mzp_init_copy", "mzd_to_png", "mzd_from_png", "mzd_from_jcf", "mzd_from_str", "djb_compile_big", "mzd_init_above_threshold"};
 
 extern void hx_djb_free(void *z);
 
@@ -114,6 +114,25 @@ static void scenario(const mon_args_t *a, int sc, const op_t *op, long fail_at, 
     mzd_t *A = mzd_from_str(4, 4, "1000010000100001");
     disarm();
     (void)A;
+    break;
+  }
+  case X_INIT_BIG: {
+    /* blocks larger than the caching threshold take their own path through the allocation front end (never cached): a matrix
+     * just above the threshold, one far above it, used and freed, then the same sizes again */
+    size_t thr = (size_t)__M4RI_CPU_L3_CACHE;
+    int rows1 = (int)(thr / 128) + 1 + rng_int(r, 0, 8), rows2 = (int)(thr / 64) + rng_int(r, 1, 50);
+    arm(fail_at);
+    for (int t = 0; t < 2; t++) {
+      mzd_t *A = mzd_init(rows1, 1024);
+      mzd_write_bit(A, rows1 - 1, 1023, 1);
+      mzd_t *B = mzd_init(rows2, 1000);
+      mzd_write_bit(B, rows2 - 1, 999, 1);
+      mzd_t *C = mzd_copy(NULL, A);
+      mzd_free(A);
+      mzd_free(B);
+      mzd_free(C);
+    }
+    disarm();
     break;
   }
   case X_DJB_BIG: {
